@@ -17,16 +17,16 @@ import (
 func init() { register("C18", false, checkC18) }
 
 type c18 struct {
-	c      *Ctx
-	info   *types.Info
-	p      *pkgT
-	dataT  *types.Named
-	guard  map[*types.Var]*types.Var // map field → mutex field
-	maps   []*types.Var
-	worker map[*types.Func]bool // functions reachable from the errgroup.Go closures
-	lits   []*ast.FuncLit       // the worker closures
-	extract *types.Func
-	funcs  []*types.Func
+	c        *Ctx
+	info     *types.Info
+	p        *pkgT
+	dataT    *types.Named
+	guard    map[*types.Var]*types.Var // map field → mutex field
+	maps     []*types.Var
+	worker   map[*types.Func]bool // functions reachable from the errgroup.Go closures
+	lits     []*ast.FuncLit       // the worker closures
+	extract  *types.Func
+	funcs    []*types.Func
 	flag     *c18flag
 	flagDone bool
 }
@@ -72,7 +72,9 @@ func checkC18(c *Ctx) {
 	c.Floor("C18.R5", 3)
 }
 
-func isRWMutex(t types.Type) bool { return isNamed(t, "sync", "RWMutex") || isNamed(t, "sync", "Mutex") }
+func isRWMutex(t types.Type) bool {
+	return isNamed(t, "sync", "RWMutex") || isNamed(t, "sync", "Mutex")
+}
 
 // guards: map field X is guarded by the mutex field whose name is the
 // lower-cased singular of X followed by "MX" (Nodes→nodeMX, dependentWays→dependentWayMX).
@@ -852,7 +854,7 @@ func (a *c18) r3() {
 		if sig.Results().Len() < 1 {
 			return false
 		}
-		b, ok := sig.Results().At(sig.Results().Len()-1).Type().Underlying().(*types.Basic)
+		b, ok := sig.Results().At(sig.Results().Len() - 1).Type().Underlying().(*types.Basic)
 		return ok && b.Kind() == types.Bool
 	}
 	// (1) registration sites: after the store, every way out of the function reports it
